@@ -371,3 +371,55 @@ def c19(res):
     for line in itertools.islice(T.read_lines(outs[0]["tlc"]["lines_path"]), 700, 701):
         res.sample(_json.loads(_json.loads(line)))
     res.assumptions += ["pickle and copy themselves (CPython) are taken as given", "node attributes: one string attribute per ordinary node (links forward it)"]
+
+
+# ---------------------------------------------------------------------------------------------------------------- C17
+ADV = ["adv:%s:%s" % (b, base) for b in ("alwayseq", "nevereq", "falsy", "zerolen", "unhashable", "container", "ordering", "tripwire")
+       for base in ("mixin", "light")]
+
+
+@check("C17")
+def c17(res):
+    from . import m2_query
+
+    outs = m1_ops.run_adversarial(res.tier)
+    seen = set()
+    for out in outs:
+        if out["tlc"]["key"] not in seen:
+            seen.add(out["tlc"]["key"])
+            res.add_tlc(out["tlc"])
+        res.replayed += out["n"]
+        for d in out["lockstep_diff"]:
+            base, adv = d["pair"]
+            res.violation({"property": "C17", "module": "ops", "config": out["config"]["name"], "family": adv,
+                           "why": "a class with user-defined special methods (%s) behaves differently from the plain class on the same call" % adv,
+                           "pred": d["pred"], "plain": d[base], "adversarial": d[adv]})
+    qouts = m2_query.run("C17", res.tier, families=tuple(["mixin", "light"] + ADV), others=())
+    for out in qouts:
+        if out["tlc"]["key"] not in seen:
+            seen.add(out["tlc"]["key"])
+            res.add_tlc(out["tlc"])
+        res.replayed += out["n"]
+        for d in out["lockstep_diff"]:
+            base, adv = d["pair"]
+            res.violation({"property": "C17", "module": "query", "config": out["config"]["name"], "family": adv,
+                           "why": "a class with user-defined special methods (%s) answers a query differently from the plain class" % adv,
+                           "par": d["par"], "ch": d["ch"], "query": d["query"], "plain": d[base], "adversarial": d[adv]})
+    from . import m3_resolver
+
+    for out in m3_resolver.run("C17", res.tier):
+        if out["tlc"]["key"] not in seen:
+            seen.add(out["tlc"]["key"])
+            res.add_tlc(out["tlc"])
+        res.replayed += out["n"]
+        for d in out["lockstep_diff"]:
+            res.violation({"property": "C17", "module": "resolver", "config": out["config"]["name"], "family": d["family"],
+                           "why": "Resolver on a class with user-defined special methods (%s) differs from the plain class: path %r" % (d["family"], d["plain"].get("path")),
+                           "par": d["par"], "ch": d["ch"], "query": d["query"], "plain": d["plain"], "adversarial": d["adversarial"]})
+    res.rule = ("The specification is the identity-only semantics (no operator compares, hashes, orders, iterates or tests the truth of a node); C17 is decided by conformance: the vectors of M1 (mutators with "
+                "all fault plans; quick: the full n3x configuration and a seeded 1/6 of n4) and M2 (navigation, util helpers, iterators with options, Walker, find) are replayed on 16 adversarial class families "
+                "(always-equal, never-equal, falsy, zero-length, unhashable, container-like, always-true ordering, and a tripwire whose special methods raise) on both mixins and compared in lock-step with the plain class on the same base.")
+    res.distinct = res.replayed
+    res.exhaustive = False
+    res.sample({"families": ADV})
+    res.assumptions += ["'all user classes' is represented by this finite family of overriding patterns"]
